@@ -575,6 +575,13 @@ def check_counts(ts, fit, segsites, rescaled, tol=1e-9):
     if not rescaled:
         if not _close(lik, naive, rtol=tol):
             bad.append(("counts-touched-without-rescaling", "rescaling disabled but the mutation counts differ from a direct tally"))
+        for m in sing:
+            i, j = (int(x) for x in bedges[mblock[m]])
+            if int(medge[m]) == j:
+                stats["switched"] += 1
+            if phase[m] == phase[m] and phase[m] < 0.5 - 1e-12:
+                bad.append(("final-phase-below-half", f"mutation {m}: reported phase {phase[m]} < 1/2"))
+                break
         return bad, stats
     blk = np.zeros(lik.size, dtype=bool)
     blk[bedges.flatten()] = True
@@ -600,8 +607,12 @@ def check_counts(ts, fit, segsites, rescaled, tol=1e-9):
         other = j if placed == i else i
         exp[placed] += p
         exp[other] += 1 - p
-        exp_swapped[placed] += 1 - p
-        exp_swapped[other] += p
+        if placed == j and i != j:      # what the pre-repair order (F8) computes: shares swapped for switched singletons
+            exp_swapped[placed] += 1 - p
+            exp_swapped[other] += p
+        else:
+            exp_swapped[placed] += p
+            exp_swapped[other] += 1 - p
     scale = 1.0 + float(np.max(np.abs(exp))) if exp.size else 1.0
     d_blk = np.abs(lik - exp)[blk]
     d_oth = np.abs(lik - exp)[~blk]
@@ -612,7 +623,7 @@ def check_counts(ts, fit, segsites, rescaled, tol=1e-9):
         e = int(np.flatnonzero(blk)[np.argmax(d_blk)])
         if np.max(np.abs(lik - exp_swapped)[blk]) <= tol * scale:
             bad.append(("placed-branch-gets-smaller-share",
-                        f"edge {e}: count {lik[e]}, required {exp[e]}; counts equal the allocation with the two shares of every singleton swapped"))
+                        f"edge {e}: count {lik[e]}, required {exp[e]}; counts equal the allocation in which every singleton moved to the second edge of its block gives that edge the smaller share"))
         else:
             bad.append(("block-edge-count-wrong", f"edge {e}: count {lik[e]}, required {exp[e]} (sum of the placed/other shares)"))
     tot = float(np.sum(lik[blk])) if np.any(blk) else 0.0
